@@ -5,20 +5,21 @@ CONFIG = {
         "name": "eval", "pkg": "./ledger/eval/", "run": "^TestVerifC21$",
         "files": ["ledger/eval/zz_verif_c18_test.go", "ledger/eval/zz_verif_c21_test.go"],
         "util": [("ledger/eval", "eval")],
-        "env": {"quick": {"VERIF_C21_UNIVERSES": 120, "VERIF_C21_BLOCKS": 5, "VERIF_C21_GROUPS": 10},
-                "thorough": {"VERIF_C21_UNIVERSES": 4000, "VERIF_C21_BLOCKS": 8, "VERIF_C21_GROUPS": 12}},
+        "env": {"quick": {"VERIF_C21_UNIVERSES": 90, "VERIF_C21_BLOCKS": 8, "VERIF_C21_GROUPS": 10},
+                "thorough": {"VERIF_C21_UNIVERSES": 3000, "VERIF_C21_BLOCKS": 10, "VERIF_C21_GROUPS": 12}},
         "timeout": {"quick": 600, "thorough": 3000},
     }],
     "rule": "one case = one block of the real BlockEvaluator over a closed 9-account ledger whose accounts include one at its minimum balance and one "
-            "whose requirement is raised by app / schema / extra-page / box / asset counters; asset creations / opt-ins raise requirements during the run; many payments aim at the exact boundary (spendable "
+            "whose requirement is raised by app / schema / extra-page / box / asset counters; asset creations / opt-ins, application creations / opt-ins and box creations raise requirements during the run; many payments aim at the exact boundary (spendable "
             "amount, one more, receiver below the minimum).  spec_ok = after every accepted group each account whose record changed -- other than "
             "fee sink, rewards pool, state proof sender -- is all-zero or holds, with pending rewards, at least the closed-form requirement computed "
             "from the observed counters.  Non-trivial = the block contains an accepted group or a MinBalanceError.",
     "exhaustive": {"quick": False, "thorough": False},
     "explanation": "minbal_after_group holds for every accepted group of the modelled evaluator and every parameter / counter value below 2^64",
     "assumptions": [
-        "payments, closes, key registrations and asset transactions (creation, opt-in, close-out, destroy change TotalAssets) are modelled; app creation "
-        "with schemas and box creation / deletion are EXCLUDED (application calls are not modelled): those counters vary through the initial states only",
+        "payments, closes, key registrations, asset transactions (TotalAssets) and application calls are modelled: app creation with schemas and extra "
+        "pages, opt-in / close-out / clear state / delete, box_create / box_del / box_resize (TotalBoxes / TotalBoxBytes of the application account), inner "
+        "payments draining the application account; NOT modelled: inner application calls, UpdateApplication (SizeSponsor changes)",
     ],
     "trusted_base": [
         "modelled: basics.MinBalance + StateSchema.MinBalance, BlockEvaluator.checkMinBalance, transaction, TransactionGroup (coq/model/EvalCow.v, EvalGroup.v)",
